@@ -344,7 +344,10 @@ def gen_namespaces(rng, shape_prefix_pressure=0.0):
         ns[EX_DEEP] = "exn"
     if rng.random() < shape_prefix_pressure:
         # occupy some of sheXer's default shape prefixes
-        taken = rng.sample(["", "weso-s", "shapes", "w-shapes"], rng.randint(1, 3))
+        defaults = ["", "weso-s", "shapes", "w-shapes"]
+        k = rng.randint(1, 3)
+        # mostly the first k in sheXer's own priority order (so that the next candidate is the k+1-th), sometimes any k
+        taken = defaults[:k] if rng.random() < 0.6 else rng.sample(defaults, k)
         for i, p in enumerate(taken):
             ns["http://taken%d.org/" % i] = p
     return ns
